@@ -60,7 +60,7 @@ def run_enum(prop, tier, legs, rule, nontrivial_counter, level="model_checking",
         "distinct_nontrivial": counters.get(nontrivial_counter, 0),
         "rule": rule + " | states = case ids executed; transitions/evaluations = library runs (a case may run many); distinct_nontrivial counts the unit named in the rule",
         "samples": samples or ["(no sample emitted)"],
-        "exhaustive": len([e for r in results for e in r.errors]) == 0 and counters.get("worker_deaths", 0) == len([f for f in all_fail if f.get("crash")]),
+        "exhaustive": len([e for r in results for e in r.errors]) == 0 and counters.get("worker_deaths", 0) == len([f for f in all_fail if f.get("crash")]) and counters.get("shards_stopped_after_two_timeouts", 0) == 0,
         "space_size": counters.get("total_cases_in_space", 0),
         "skipped_by_premise": counters.get("skipped_by_premise", 0),
         "counters": counters,
